@@ -566,3 +566,144 @@ def replay_expr(p):
     bad = abs(complex(kval).real - float(p["expected"])) > p["tol"] if not p["entry"].endswith(".im") else abs(complex(kval).imag - float(p["expected"])) > p["tol"]
     print("REPRODUCED" if bad else "not reproduced")
     return 1 if bad else 0
+
+
+# ---------------------------------------------------------------------------
+# C07 on expression kernels: A <- A + T with T independent of the previous contents of A
+
+
+def _layout(expr, pts, cm):
+    low = lower_expression(expr, cm)
+    doms = ufl.domain.extract_domains(expr)
+    if not doms:
+        raise uflref.OracleUnsupported("expression without a domain (literals only)")
+    dom = max(doms, key=lambda d: d.topological_dimension)
+    cel = dom.ufl_coordinate_element()
+    gdim = cel.reference_value_shape[0]
+    args = sorted(ufl.algorithms.extract_arguments(low), key=lambda a: a.number())
+    coeffs = list(ufl.algorithms.extract_coefficients(low))
+    consts = list(ufl.algorithms.analysis.extract_constants(low))
+    nw = sum(f.ufl_function_space().ufl_element().dim for f in coeffs)
+    nc = sum(int(np.prod(k.ufl_shape, dtype=int)) for k in consts)
+    nx = 3 * (cel.dim // gdim)
+    vshape = tuple(expr.ufl_shape)
+    ncomp = int(np.prod(vshape, dtype=int)) if vshape else 1
+    ndofs = int(np.prod([a.ufl_function_space().ufl_element().dim for a in args], dtype=int)) if args else 1
+    return dom, nw, nc, nx, len(pts) * ncomp * ndofs
+
+
+def _expr_purity(name, spec, res):
+    from .poly import parts
+
+    scalar = spec.get("scalar", "float64")
+    cm = scalar.startswith("complex")
+    expr, pts, c, m, ename, ed, kern = setup_expression(name, scalar)
+    dom, nw, nc, nx, nA = _layout(expr, pts, cm)
+    tdim = dom.topological_dimension
+    cellname = dom.ufl_cell().cellname
+    edim = pts.shape[1]
+    stats = eqcheck.QStats()
+    cfgs = [((0, 0), (0, 0))]
+    if edim != tdim:
+        nfac = len(basix.topology(basix.CellType[cellname])[tdim - 1])
+        cfgs = [((0, 0), (0, 0)), ((nfac - 1, 0), (1 if edim == 1 else 0, 0))]
+    for p in kern.params:
+        if p["name"] in ("w", "c", "coordinate_dofs", "entity_local_index", "quadrature_permutation") and not p["const"]:
+            res["violations"].append({"key": f"{name}:param-not-const:{p['name']}", "what": f"input parameter {p['name']} of the expression kernel is not pointer-to-const", "replay": None})
+    for ents, perm in cfgs:
+        ctx = Ctx()
+        inp = uflref.Inputs(ctx, nw, nc, nx, cm)
+        kr = ksym.run_kernel(kern, ctx, inp, nA, entities=ents, perms=perm, symbolic_A0=True)
+        res["kernels"] += 1
+        res["configs"] += 1
+        for e in kr.interp.events:
+            if e.kind == "write_input":
+                res["violations"].append({"key": f"{name}:write:{e.array}", "what": f"expression kernel writes to input/table {e.array} (line {e.line})", "replay": None})
+        for s_ in kr.interp.statics_nonconst:
+            res["violations"].append({"key": f"{name}:static:{s_}", "what": f"non-const static {s_} in an expression kernel", "replay": None})
+        hav = {v.id for v in ctx.vars if v.kind == "havoc"}
+        dep = []
+        for i, val in enumerate(kr.A):
+            pr = parts(val)
+            a0r = ctx.inp(f"A0_{i}r", "A0") if cm else ctx.inp(f"A0_{i}", "A0")
+            a0i = ctx.inp(f"A0_{i}i", "A0") if cm else None
+            for part, p in zip(("re", "im"), pr):
+                if part == "im" and not cm:
+                    continue
+                T = p - (a0r if part == "re" else a0i)
+                res["entries"] += 1
+                verdict, _ = eqcheck.qdep(ctx, T, ("A0_",), stats)
+                if verdict == "sat":
+                    dep.append(i)
+                elif verdict != "unsat":
+                    res["inconclusive"].append(f"{name} A[{i}]: {verdict}")
+                if hav and (T.vars() & hav):
+                    res["violations"].append({"key": f"{name}:A[{i}]:uninitialised", "what": f"uninitialised value reaches A[{i}] of the expression kernel", "replay": None})
+        if dep:
+            # replay on the gcc build: increments from two different initial A
+            lib = ksym.build_so(c, "xp")
+            rng = np.random.RandomState(3)
+            env = {v.name: float(np.round(rng.uniform(0.3, 1.4), 3)) for v in ctx.vars if v.defn is None}
+            w, cc, x = ksym.pack(inp, env)
+            A1 = ksym.call_c_kernel(lib, kern, nA, w, cc, x, ents, perm, A0=np.zeros(nA))
+            A2 = ksym.call_c_kernel(lib, kern, nA, w, cc, x, ents, perm, A0=np.full(nA, 7.25))
+            d = np.abs((A2 - 7.25) - A1)
+            if float(np.max(d)) > 1e-9 * max(1.0, float(np.max(np.abs(A1)))):
+                i = int(np.argmax(d))
+                res["violations"].append({"key": f"{name}:A[{i}]:depends-on-A0",
+                                          "what": f"expression kernel: A[{i}] final - initial depends on the previous contents of A (increment {A1[i]!r} from A0=0, {(A2 - 7.25)[i]!r} from A0=7.25; entities {ents})",
+                                          "replay": {"kind": "expr_purity", "name": name, "scalar": scalar, "ents": list(ents), "perm": list(perm)}})
+            else:
+                res["inconclusive"].append(f"{name}: Q-dep sat on entries {dep[:4]} but not reproduced on the build")
+        if nA:
+            res["twins_run"] += 1
+            p0 = parts(kr.A[0])[0]
+            a00 = ctx.inp("A0_0r", "A0") if cm else ctx.inp("A0_0", "A0")
+            from .poly import Poly
+            v, _ = eqcheck.qdep(ctx, p0 - a00 + a00 * Poly({(): 1}, ctx) * 0.001, ("A0_",), None)
+            if v == "sat":
+                res["twins_ok"] += 1
+            else:
+                res["harness"].append(f"{name}: expression purity twin not detected")
+    res["samples"].append({"expression kernel": kern.name, "A_entries": nA, "queries": "Q-dep per A entry: T=A_final-A0 vs A0 symbols"})
+    res["queries"] = stats.q
+    res["solver_s"] = stats.secs
+
+
+def expr_purity(name, spec):
+    t0 = time.time()
+    res = _new_res(name)
+    try:
+        _expr_purity(name, spec, res)
+    except BudgetExceeded as e:
+        res["outside"].append(f"{name}: polynomial size {e} over budget")
+    except gen.Rejected as e:
+        res["outside"].append(f"{name}: rejected by FFCx with {e}")
+    except uflref.OracleUnsupported as e:
+        res["outside"].append(f"{name}: {e}")
+    except KsymError as e:
+        res["harness"].append(f"{name}: ksym: {e}")
+    except Exception as e:
+        res["harness"].append(f"{name}: {type(e).__name__}: {e}\n{traceback.format_exc()[-1500:]}")
+    res["wall"] = time.time() - t0
+    return res
+
+
+def replay_expr_purity(p):
+    name, scalar = p["name"], p.get("scalar", "float64")
+    cm = scalar.startswith("complex")
+    expr, pts, c, m, ename, ed, kern = setup_expression(name, scalar)
+    dom, nw, nc, nx, nA = _layout(expr, pts, cm)
+    ctx = Ctx()
+    inp = uflref.Inputs(ctx, nw, nc, nx, cm)
+    rng = np.random.RandomState(3)
+    env = {v.name: float(np.round(rng.uniform(0.3, 1.4), 3)) for v in ctx.vars if v.defn is None}
+    w, cc, x = ksym.pack(inp, env)
+    lib = ksym.build_so(c, "xp")
+    A1 = ksym.call_c_kernel(lib, kern, nA, w, cc, x, p["ents"], p["perm"], A0=np.zeros(nA))
+    A2 = ksym.call_c_kernel(lib, kern, nA, w, cc, x, p["ents"], p["perm"], A0=np.full(nA, 7.25))
+    print("increment from A0=0   :", A1[: min(6, nA)])
+    print("increment from A0=7.25:", (A2 - 7.25)[: min(6, nA)])
+    bad = float(np.max(np.abs((A2 - 7.25) - A1))) > 1e-9 * max(1.0, float(np.max(np.abs(A1))))
+    print("REPRODUCED" if bad else "not reproduced")
+    return 1 if bad else 0
